@@ -41,7 +41,8 @@ theorem layout_split (ps1 ps2 : List Piece) (gs : List Txt) (h : LayoutOk (ps1 +
     gives what the specification expects -/
 def CoveredOp (last fst : Bool) (o : OpA) : Prop :=
   ∃ t1 ps raw, opPieces o = (t1, 1) :: ps ∧
-    (∀ gs, InnerOk ps gs → GoodOp last fst (t1 ++ joinInner ps gs) raw) ∧
+    (∀ gs, InnerOk ps gs →
+      if fst then GoodFirst last (t1 ++ joinInner ps gs) raw else GoodOp last false (t1 ++ joinInner ps gs) raw) ∧
     processOperand raw = .ok (expectOp o)
 
 /-- every operand is covered at its position; only the last one may be of a kind that has to be last,
@@ -73,7 +74,7 @@ theorem rest_ops_form (os : List OpA) (cps : List Piece) (gs : List Txt) (hc : O
     · refine ⟨hg1, hg2, ?_, hs⟩
       have : slots.isEmpty = os.isEmpty := by
         cases slots <;> cases os <;> simp_all
-      rw [this]; exact hgood gi hi
+      rw [this]; simpa using hgood gi hi
     · simp [joinPieces, restText, hj, hj', List.append_assoc]
     · simp only [List.map_cons, processOperands, hproc, hpr, List.flatten_cons]
 
@@ -184,7 +185,7 @@ theorem roundtrip_covered (a : InstrA) (gaps : List Txt) (hok : InstrOk a) (hc :
     have hempty : slots.isEmpty = os.isEmpty := by
       cases slots <;> cases os <;> simp_all
     have hfo : FirstOk (some (g1, t1 ++ joinInner ps gi, raw)) slots :=
-      ⟨hg1, hk1 rfl, by rw [hempty]; exact hgood gi hi, hs⟩
+      ⟨hg1, hk1 rfl, by rw [hempty]; simpa using hgood gi hi, hs⟩
     obtain ⟨c1, c2, c3, c4⟩ := not_other_class g0 m ms _ slots t hg0 hmc hm46 hfo htok
     rw [parseLine_instr _ c1 c2 c3 c4]
     have hslots : slots.length ≤ 4 := by
